@@ -202,7 +202,13 @@ fn fuzz_mix(u: &mut Unstructured) {
                 0..=2 => MOp::Load(c),
                 3 => MOp::LoadFull(c),
                 4 | 5 => MOp::Store(c, val(u)?),
-                6 => MOp::Swap(c, val(u)?),
+                6 => {
+                    if u.ratio(1u8, 2u8)? {
+                        MOp::Swap(c, val(u)?)
+                    } else {
+                        MOp::Rcu(c, val(u)?)
+                    }
+                }
                 7 => MOp::Cas(c, val(u)?, val(u)?),
                 8 => MOp::DerefGuard(u.arbitrary()?),
                 9 => MOp::DropGuard(u.arbitrary()?),
